@@ -3,6 +3,7 @@
 from __future__ import annotations
 
 import json
+import ast
 import os
 import time
 from dataclasses import dataclass, field
@@ -43,6 +44,69 @@ class RuleStat:
     nontrivial: set = field(default_factory=set)
 
 
+def keep_set(prog: Program, explicit_only: bool = False) -> set:
+    """Functions the rules name (anchors): never inlined into their callers."""
+    import glob
+
+    from .inline import anchors_from_sources
+
+    here = os.path.dirname(os.path.abspath(__file__))
+    srcs = glob.glob(os.path.join(here, "*.py")) + glob.glob(os.path.join(here, "props", "*.py"))
+    names = anchors_from_sources(srcs)
+    # suffixes appended to a module / class constant: RULES + ".MergeRule.apply", CM + ".write_cache"
+    import re
+
+    suffixes = set()
+    for p_ in srcs:
+        for m in re.finditer(r"[\"'](\.[A-Za-z_][\w.<>]*)[\"']", open(p_, encoding="utf-8").read()):
+            suffixes.add(m.group(1))
+    # identifiers the rules mention by name ("filter_data", "parallel_impute", "standardize_", ...)
+    idents = set()
+    for p_ in srcs:
+        try:
+            tree = ast.parse(open(p_, encoding="utf-8").read())
+        except SyntaxError:
+            continue
+        for n in ast.walk(tree):
+            if isinstance(n, ast.Constant) and isinstance(n.value, str) and re.fullmatch(r"[A-Za-z_]\w{2,}", n.value):
+                idents.add(n.value)
+    keep = set()
+    for q, f in prog.functions.items():
+        if q in names or any(q.endswith(sfx) for sfx in suffixes) or f.name in idents or any(f.name.startswith(i) for i in idents if i.endswith("_")):
+            keep.add(q)
+        if f.cls is not None and f.cls.qualname in names and not explicit_only:
+            keep.add(q)
+        # nested functions of anchors stay with them
+        if f.parent is not None and (f.parent.qualname in names):
+            keep.add(q)
+    return keep
+
+
+def reference_functions() -> set:
+    here = os.path.dirname(os.path.abspath(__file__))
+    out = set()
+    with open(os.path.join(here, "reference_functions.txt"), encoding="utf-8") as fh:
+        for line in fh:
+            line = line.strip()
+            if line and not line.startswith("#"):
+                out.add(line)
+    return out
+
+
+def normalise(prog: Program) -> list:
+    """Expand helpers that do not exist on the reference tree (extract-method refactorings, new plumbing) in place."""
+    from .inline import Inliner
+
+    ref = reference_functions()
+    new_helpers = {q for q in prog.functions if q.startswith(prog.package + ".") and q not in ref}
+    if not new_helpers:
+        return []
+    keep = (set(prog.functions) - new_helpers) | (keep_set(prog, explicit_only=True) & new_helpers)
+    inl = Inliner(prog, keep, candidates=new_helpers - keep)
+    inl.run()
+    return inl.log
+
+
 class Ctx:
     """Everything a property checker needs, plus result collection."""
 
@@ -54,6 +118,9 @@ class Ctx:
         self.t0 = time.time()
         extra = ("Scripts", "Pipeline", "per_dataset_benchmark.py")
         self.prog = Program(self.repo, extra=extra)
+        self.inlined: list = []
+        if os.environ.get("SYNLINT_NO_INLINE") != "1":
+            self.inlined = normalise(self.prog)
         self.res = Resolver(self.prog)
         self.ev = Evaluator(self.prog, self.res)
         self.findings: List[Finding] = []
